@@ -62,6 +62,32 @@ def quiet_library_logging():
     logging.disable(logging.CRITICAL)
 
 
+class _FormattingHandler(logging.Handler):
+    """What a deployment with debug logging switched on does to every record:
+    format it (and here, drop it)."""
+
+    def emit(self, record):
+        record.getMessage()
+
+    def handleError(self, record):
+        raise
+
+
+def apply_logging_config(trace):
+    """The logging configuration is ambient state too: a run may execute
+    with DEBUG logging enabled for the library's loggers (trace flag
+    'debug_log'), as applications commonly do."""
+    if trace.get('debug_log'):
+        logging.disable(logging.NOTSET)
+        lg = logging.getLogger('pamqp')
+        lg.setLevel(logging.DEBUG)
+        lg.propagate = False
+        if not any(isinstance(h, _FormattingHandler) for h in lg.handlers):
+            lg.addHandler(_FormattingHandler())
+    else:
+        logging.disable(logging.CRITICAL)
+
+
 # ------------------------------------------------------------ known findings
 
 def load_known():
